@@ -43,6 +43,7 @@ func casesMain(args []string) int {
 		return 2
 	}
 	defer fout.Close()
+	OpenMarks()
 	sc := bufio.NewScanner(fin)
 	sc.Buffer(make([]byte, 1<<20), 1<<30)
 	ctx := &Ctx{}
@@ -64,7 +65,16 @@ func casesMain(args []string) int {
 		fmt.Fprintf(fout, "{\"begin\":%s}\n", string(c.ID))
 		obs := make([]Obs, 0, len(c.Ops))
 		for i := range c.Ops {
-			obs = append(obs, ctx.Exec(&c.Ops[i]))
+			Mark("issue %s %d %s", string(c.ID), i, c.Ops[i].Op)
+			o := ctx.Exec(&c.Ops[i])
+			st := "ok"
+			if o["panic"] != nil {
+				st = "panic"
+			} else if o["err"] != nil {
+				st = "err"
+			}
+			Mark("done %s %d %s", string(c.ID), i, st)
+			obs = append(obs, o)
 		}
 		b, err := json.Marshal(map[string]interface{}{"id": c.ID, "obs": obs})
 		if err != nil {
